@@ -49,6 +49,8 @@ class CallMixin(ExprMixin):
             return self.eval(n.args[1])
         if text == 'old' and self.spec_mode:
             return self.eval_old(n.args[0])
+        if text == 'loop_old' and self.spec_mode:
+            return self.eval_loop_old(n.args[0])
         if text in ('forall', 'exists') and self.spec_mode:
             return self.quantifier(text, n)
         if self.spec_mode and text in self.spec.specfuns:
@@ -110,6 +112,19 @@ class CallMixin(ExprMixin):
         ty = self.spec.ghosts[name]
         val = coerce(val, ty)
         self.st.ghost[name] = V(val.ty, val.term, ('ghost', name), val.py)
+
+    def eval_loop_old(self, node) -> V:
+        """loop_old(e) in a loop invariant: e in the state at entry of that loop (before its first iteration)."""
+        stack = getattr(self, 'loop_old_stack', None)
+        if not stack:
+            raise Unsupported('loop_old() outside a loop invariant')
+        snap = stack[-1]
+        self.old_stack.append({'heap': snap['heap'], 'ghost': snap['ghost'], 'env': {}, 'ctx': snap.get('ctx', {})})
+        try:
+            r = self.eval(node)
+            return V(r.ty, r.term, None, r.py)
+        finally:
+            self.old_stack.pop()
 
     def eval_old(self, node) -> V:
         snap = self.entry
@@ -616,8 +631,8 @@ class CallMixin(ExprMixin):
         heap = self.cur_heap()
         memo_key = (C.key, base.term.get_id(), self.st.flags.get('heap_version', 0) if heap is self.st.heap else id(heap))
         memo = self.st.flags.setdefault('view_memo', {})
-        if memo_key in memo and not getattr(self, 'spec_locals', None):
-            return memo[memo_key]
+        if memo_key in memo and not getattr(self, 'spec_locals', None) and memo[memo_key][0].eq(base.term):
+            return memo[memo_key][1]
         saved = self.st.env
         self.st.env = {pname: base}
         saved_old = None
@@ -633,7 +648,7 @@ class CallMixin(ExprMixin):
             if saved_old is not None:
                 self.old_stack[-1] = saved_old
         if not getattr(self, 'spec_locals', None):
-            memo[memo_key] = r
+            memo[memo_key] = (base.term, r)      # pins the term: z3 reuses AST ids of collected terms
         return r
 
     def await_value(self, v: V) -> V:
